@@ -103,6 +103,7 @@ fn main() {
             let seed: u64 = arg(&args, "--seed").and_then(|s| s.parse().ok()).unwrap_or(1);
             fs::create_dir_all(&scratch).unwrap();
             let mut out = seq::Out { w: std::io::BufWriter::new(fs::File::create(&outp).unwrap()), lines: 0 };
+            vecs::set_marker_path(PathBuf::from(format!("{outp}.cur")));
             match what.as_str() {
                 "range" => vecs::run_range(&scratch, &mut out, &tier, seed),
                 "blob" => vecs::run_blob(&scratch, &mut out, &tier, seed),
@@ -110,6 +111,7 @@ fn main() {
                 other => panic!("unknown --what {other}"),
             }
             out.w.flush().unwrap();
+            vecs::clear_marker();
             let _ = fs::remove_dir_all(&scratch);
             eprintln!("casharn vec {what}: {} lines", out.lines);
         }
